@@ -664,9 +664,16 @@ def _call_view(
             if not secure:
                 # the view will have a __call_permissive__ attribute if it's
                 # secured; otherwise it won't.
-                view_callable = getattr(
-                    view_callable, '__call_permissive__', view_callable
-                )
+                permissive = getattr(view_callable, '__call_permissive__', None)
+                if permissive is not None:
+                    # the permissive callable of a single view skips its
+                    # predicates too; check them here
+                    predicated = getattr(view_callable, '__predicated__', None)
+                    if predicated is not None and not predicated(
+                        context, request
+                    ):
+                        raise PredicateMismatch(view_name)
+                    view_callable = permissive
 
             # if this view is secured, it will raise a Forbidden
             # appropriately if the executing user does not have the proper
